@@ -260,7 +260,7 @@ def check_comparator_laws(F, C, rels, tier):
     f = F.fn(key)
     if f is None:
         return
-    rels = rels if tier == "thorough" else rels[:14] + SORT_RELS
+    rels = (rels[:40] if tier == "thorough" else rels[:14]) + SORT_RELS
     uniq = {}
     for r in rels:
         uniq[repr(r)] = r
